@@ -491,15 +491,7 @@ fn programs(rep: &mut Report) {
     ];
     let offsets: Vec<usize> = INSTR.iter().scan(0, |acc, (_, n)| { let o = *acc; *acc += n; Some(o) }).collect();
     let nact: usize = INSTR.iter().map(|(_, n)| n).sum();
-    rep.bfs(
-        "programs",
-        "X",
-        &format!("registers M, N: Matrix3, v: Vector3, q: Quaternion over exact rationals; 12 instructions in {nact} spellings; all straight-line programs up to length {depth}"),
-        vec![St::<T>(init)],
-        nact,
-        depth,
-        Guard::states(50).inconclusive(0.02),
-        |st, act, ctx| {
+    let prog = std::sync::Arc::new(move |st: &St<T>, act: usize, ctx: &mut Ctx| -> Option<St<T>> {
             let ins = offsets.iter().rposition(|o| *o <= act).unwrap();
             let sp = act - offsets[ins];
             let (m, n): ([[T; 3]; 3], [[T; 3]; 3]) = (st.mat(0), st.mat(9));
@@ -607,10 +599,36 @@ fn programs(rep: &mut Report) {
             vals.extend(nv);
             vals.extend(nq);
             Some(St(vals))
-        },
+            });
+    let init_state = St::<T>(init);
+    let p1 = prog.clone();
+    rep.bfs(
+        "programs",
+        "X",
+        &format!("registers M, N: Matrix3, v: Vector3, q: Quaternion over exact rationals; 12 instructions in {nact} spellings; all straight-line programs up to length {depth}"),
+        vec![init_state.clone()],
+        nact,
+        depth,
+        Guard::states(50).inconclusive(0.02),
+        move |st, act, ctx| p1(st, act, ctx),
         |_, _| {},
         |st| st.show(),
     );
+    // cross-check of the engine: the same transition function under stateright's own BFS
+    if rep.replay.is_none() {
+        if let Some((states, _)) = rep.last_counts() {
+            let p2 = prog.clone();
+            let sr = mc_props0::stateright_states(vec![init_state], nact, depth, move |s: &St<T>, a: usize| {
+                let mut c = Ctx::scratch();
+                let r = p2(s, a, &mut c);
+                if c.failed() { None } else { r }
+            });
+            rep.note(format!("programs: stateright 0.31 (single-threaded BFS, same transition function) reaches {sr} unique states within depth {depth}; own engine {states}"));
+            if sr as u64 != states {
+                rep.machinery.push(format!("programs: engine cross-check failed: stateright reaches {sr} unique states, own BFS {states}"));
+            }
+        }
+    }
 }
 
 fn main() {
